@@ -137,7 +137,7 @@ def handleOps (toks : List String) : Option String :=
     pure (runShow (opSelEntries selCfg sel_first sel_last fuel) s.base f fun v => hexList (v.map (·.1)))
   | ["getclear", r, a, b, rid, fuel, fs] => do
     let s ← parseScript r a b; let rid ← rid.toNat?; let fuel ← fuel.toNat?; let f ← parseFaults fs
-    pure (runShow (opGetAndClear selCfg sel_cancel fuel rid) s.base f toHex)
+    pure (runShow (opGetAndClear selCfg sel_cancel sel_budget fuel rid) s.base f toHex)
   | ["sdr", r, a, b, res, rid, fs] => do
     let s ← parseScript r a b; let rid ← rid.toNat?; let f ← parseFaults fs
     let resOpt ← (if res == "-" then some none else res.toNat?.map some)
